@@ -46,3 +46,10 @@ func Stats() (acquired, released, checks int) {
 	}
 	return
 }
+
+// Points makes every *pool.Message method entry a scheduling point for the current execution.
+func Points() {
+	if pool.VerifTrack != nil {
+		pool.VerifTrack.Points = true
+	}
+}
